@@ -166,7 +166,14 @@ extern "C" __attribute__((noinline)) void lg_register(unsigned r, void* base, ui
     for (unsigned i = 0; i < LG_SLOTS; i++)
         if (uint64_t(i) * 4 < bytes) vf_assume(!lg_is_mark(lg_word_at(r, uint64_t(i) * 4)));
 }
-// region r holds exactly n live objects of `tag`, esz bytes apart, the first at byte offset off, and no live object in any
+// where elements of the owner in region r can live: first slot at byte offset off, esz bytes apart (told right after
+// registration, from layout constants of the kernel; lg_expect insists that the elements it is told about are there)
+static inline void lg_layout(unsigned r, uint64_t off, unsigned esz)
+{
+    vf_led.off[r] = off; vf_led.esz[r] = esz;
+    vf_led.nslot[r] = vf_led.bytes[r] >= off + esz ? uint32_t((vf_led.bytes[r] - off) / esz) : 0;
+}
+// region r holds exactly n live objects of `tag` (0: of any tag), esz bytes apart, the first at byte offset off, and no live object in any
 // other element slot (the census looks at the state word of every slot an element of this owner can occupy; an object
 // alive anywhere else shows up in lg_quiet's count)
 extern "C" __attribute__((noinline)) void lg_expect(unsigned r, uint64_t off, unsigned n, unsigned esz, unsigned tag)
@@ -178,7 +185,7 @@ extern "C" __attribute__((noinline)) void lg_expect(unsigned r, uint64_t off, un
     for (unsigned i = 0; i < LG_SLOTS; i++) {
         if (i >= vf_led.nslot[r]) break;
         uint32_t w = lg_word_at(r, vf_led.off[r] + uint64_t(i) * vf_led.esz[r] + 4); // the state word follows the payload
-        if (i < n) vf_assert(w == LG_LIVE + tag || w == LG_MOVED + tag, "C03: an element of the owner is not a live object (never constructed, or destroyed while still owned)");
+        if (i < n) vf_assert(tag == 0 ? lg_is_mark(w) : (w == LG_LIVE + tag || w == LG_MOVED + tag), "C03: an element of the owner is not a live object (never constructed, or destroyed while still owned)");
         else vf_assert(!lg_is_mark(w), "C03: a live object is left outside the owner's elements (leak: constructed but never destroyed)");
     }
 }
